@@ -3,7 +3,8 @@
    description of the documented grammar into the items it denotes is established per run by the correspondence
    (tokenizer model exhaustively on short strings, grammar-derived descriptions with an independent denotation). *)
 From Coq Require Import String.
-From CP Require Import Model.Base Model.Ranges Model.Lex Model.RangeParse Model.Dec Model.DecRange Proofs.RangeProofs.
+From CP Require Import Model.Base Generated.Consts Model.Ranges Model.Lex Model.RangeParse Model.Dec Model.DecRange Proofs.RangeProofs
+  Proofs.RangeParseProofs.
 Local Open Scope Z_scope.
 
 (* a value is accepted iff it lies inside at least one item, both limits inclusive, an omitted limit = unbounded *)
@@ -39,6 +40,29 @@ Proof. exact decrange_validate_iff_lemma. Qed.
 Theorem decimal_order_is_numeric : forall a b e, e <= Z.min (d_exp a) (d_exp b) ->
   dec_leb a b = (dec_scaled a e <=? dec_scaled b e).
 Proof. exact dec_leb_scale. Qed.
+
+(* the token loop of Range.__init__: every description of the documented grammar - any number of items; each limit one
+   NAME / NUMBER / STRING token in whatever spelling the code_for_* functions evaluate (decimal, hex, quoted character,
+   symbolic name), or a NUMBER behind a minus sign; any separator spelling - is mapped to exactly the items it denotes,
+   provided every closed item is ordered and no earlier item contains an end point of a later one (the code's overlap
+   rule). What remains by correspondence is Python's tokenizer: that the text is split into these tokens. *)
+Theorem token_loop_maps_grammar_to_denotation : forall d its, d <> [] -> map gitem_den d = map Some its -> no_overlap [] its ->
+  parse_items (desc_tokens d) istate0 [] = POk (Some its).
+Proof. exact token_loop_denotes. Qed.
+(* a closed item whose upper limit lies below its lower limit is refused *)
+Theorem reversed_item_is_refused : forall l1 s l2 a b rest items, is_sep s = true -> lim_value l1 = Some a -> lim_value l2 = Some b -> b < a ->
+  parse_items (gitem_tokens (GClosed l1 s l2) ++ eof_tok :: rest) istate0 items = PInterface.
+Proof. exact token_loop_refuses_reversed. Qed.
+
+(* non-vacuity of the grammar: the tokenizer model splits a description with every kind of limit spelling into exactly
+   the token sequence of a grammar description, whose items have the expected denotations *)
+Example grammar_example :
+  let d := [GClosed (LMinus (T KNumber (txt "0x10"))) (T KOp [58%N]) (LMinus (T KNumber (txt "1")));
+            GClosed (LPlain (T KString (txt "'a'"))) (T KOp [58%N]) (LPlain (T KString (txt "'z'")));
+            GSingle (LPlain (T KName (txt "tab"))); GFrom (LPlain (T KNumber (txt "200"))) (T KOp [58%N])] in
+  tokenize_without_space (ellipsis_to_colon (replace_dots (txt "-0x10 ... -1, 'a':'z' ,tab, 200" ++ [8230%N])) None false) = LOk (desc_tokens d)
+  /\ map gitem_den d = map Some [(Some (-16), Some (-1)); (Some 97, Some 122); (Some 9, Some 9); (Some 200, None)].
+Proof. split; vm_compute; reflexivity. Qed.
 
 (* non-vacuity: a four-item description with every kind of limit spelling, parsed by the model end to end *)
 Example range_example :
